@@ -85,13 +85,20 @@ func verifH_C13_defaults() {
 	verifReach("end")
 }
 
-//verif:harness id=C13 tier=quick,thorough witness=end bounds="oneOf / anyOf of two object branches {k: number, f default F1} and {k: string, f default F2} (plus array items of that shape) x value k number / string / boolean, f absent or present; only the matching branch's default is applied, a rejected value is left untouched"
+//verif:harness id=C13 tier=quick,thorough witness=end bounds="oneOf / anyOf of two object branches {k: number, f default F1, a:{g default G1}} and {k: string, f default F2, a:{g default G2}} (plus array items of that shape) x value k number / string / boolean, f absent or present, a absent or {}; only the matching branch's default is applied, a rejected value is left untouched"
 func verifH_C13_branch_defaults() {
 	f1, f2 := verifFiniteFloat("F1"), verifFiniteFloat("F2")
+	g1, g2 := verifFiniteFloat("G1"), verifFiniteFloat("G2")
 	branch := func(t string, def float64) *SchemaRef {
+		g := g1
+		if t == "string" {
+			g = g2
+		}
 		return &SchemaRef{Value: &Schema{Type: &Types{"object"}, Required: []string{"k"}, Properties: Schemas{
 			"k": &SchemaRef{Value: &Schema{Type: &Types{t}}},
 			"f": &SchemaRef{Value: &Schema{Type: &Types{"number"}, Default: def}},
+			// a default one object level down, in a property visited before the discriminating one
+			"a": &SchemaRef{Value: &Schema{Type: &Types{"object"}, Properties: Schemas{"g": &SchemaRef{Value: &Schema{Type: &Types{"number"}, Default: g}}}}},
 		}}}
 	}
 	comb := &Schema{}
@@ -114,6 +121,10 @@ func verifH_C13_branch_defaults() {
 	if hasF {
 		o["f"] = verifFiniteFloat("f")
 	}
+	hasA := verifChoose("hasA", 2) == 1
+	if hasA {
+		o["a"] = map[string]any{}
+	}
 	var s *Schema
 	var v any
 	inArray := verifChoose("inArray", 2) == 1
@@ -133,6 +144,14 @@ func verifH_C13_branch_defaults() {
 			want["f"] = f1
 		case 1:
 			want["f"] = f2
+		}
+	}
+	if hasA {
+		switch kind {
+		case 0:
+			want["a"] = map[string]any{"g": g1}
+		case 1:
+			want["a"] = map[string]any{"g": g2}
 		}
 	}
 	verifAssert(reflect.DeepEqual(o, want), "C13 branch defaults: only the matching branch's default is applied; nothing else changes")
